@@ -194,6 +194,27 @@ def fam_C02(tier, seed):
         for t in ts:
             b.require(t, cumul=cu)
         ps.append(b.done())
+    # a cumulative worker listed as a member of a selection (picking it takes one of its units)
+    for ntasks, H in ((3, 2), (4, 2), (3, 4)):
+        b = PB(H, tag="select-with-cumulative")
+        ts = [b.task("ABCD"[i], "F", dur=2) for i in range(ntasks)]
+        cu = b.cumul("M", 2)
+        w = b.worker("W")
+        s = [b.select(f"S{i + 1}", [w], n=1, kind="exact", cumuls=[cu]) for i in range(ntasks)]
+        for t, si in zip(ts, s):
+            b.require(t, select=si)
+        q = b.done()
+        q["_opts"] = {"solutions_only": True}
+        ps.append(q)
+    for ntasks in (2, 3):
+        b = PB(2, tag="select-with-cumulative")
+        ts = [b.task("ABCD"[i], "F", dur=2) for i in range(ntasks)]
+        c1, c2 = b.cumul("M", 2), b.cumul("N", 2)
+        for i, t in enumerate(ts):
+            b.require(t, select=b.select(f"S{i + 1}", [], n=1, kind="exact", cumuls=[c1, c2]))
+        q = b.done()
+        q["_opts"] = {"solutions_only": True}
+        ps.append(q)
     # cumulative + plain worker
     b = PB(4, tag="cumulative+worker")
     a, c = two_tasks(b)
